@@ -189,6 +189,31 @@ def walk(lb, path=()):
             yield x
 
 
+class Shared(object):
+    """The caller's long-lived dictionaries, one object per chapter path, reused for every record() call.
+    value(path, content, mode) brings the object to `content` the way callers do -- 'clear': cleared and
+    refilled; 'keep': only updated -- and returns it; nested dictionaries are long-lived objects too.
+    The generators run the same procedure on shadow objects to know what an unmodified object holds, so the
+    `content` they emit is exactly what the caller passes unless record() changed the caller's object."""
+
+    def __init__(self):
+        self.objs = {}
+
+    def value(self, path, content, mode):
+        obj = self.objs.setdefault(path, {})
+        if mode == "clear":
+            obj.clear()
+        for k, v in content.items():
+            if isinstance(v, dict):
+                obj[k] = self.value(path + (k,), v, mode)
+            else:
+                obj[k] = v
+        return obj
+
+    def kwargs(self, infos, mode):
+        return {k: (self.value((k,), v, mode) if isinstance(v, dict) else v) for k, v in infos.items()}
+
+
 class Driver(object):
     """Runs one history on a fresh Logbook; collects outcomes, skeletons, violations."""
 
@@ -199,6 +224,14 @@ class Driver(object):
         self.viol = []         # (what, signature)
         self.nrec = 0
         self.cut = False       # a chapter of different length raised during a deletion (outside the hypothesis)
+        self.shared = Shared()  # the dictionaries the caller keeps passing to record()
+        self.reuse = None       # history-wide default for record operations without an explicit mode
+
+    def record_args(self, op):
+        mode = op[2] if len(op) > 2 else self.reuse
+        if mode is None:
+            return copy.deepcopy(op[1])
+        return self.shared.kwargs(op[1], mode)
 
     def bad(self, what, signature=None):
         self.viol.append((what, signature))
@@ -240,7 +273,15 @@ class Driver(object):
         out = None
         try:
             if k == "record":
-                lb.record(**copy.deepcopy(op[1]))
+                args = self.record_args(op)
+                snapshot = copy.deepcopy(args)
+                if snapshot != op[1]:
+                    self.bad("record() was given %r for the intended %r: an earlier record() call changed the caller's dictionaries" % (snapshot, op[1]))
+                try:
+                    lb.record(**args)
+                finally:
+                    if args != snapshot:
+                        self.bad("record() modified the dictionaries passed to it: %r became %r" % (snapshot, args))
                 out = ("none",)
             elif k == "select":
                 target = lb
@@ -385,15 +426,16 @@ class Driver(object):
         self.check_state()
 
 
-def run_history(tools, ops, uniform=True):
+def run_history(tools, ops, uniform=True, reuse=None):
     """-> (operations actually used, list of (out, skeleton) per op, final dump, per-step violations)"""
     d = Driver(tools, uniform)
+    d.reuse = reuse
     steps, viols = [], []
     for i, op in enumerate(ops):
         n0 = len(d.viol)
         o = d.do(op)
         if d.cut:
-            return run_history(tools, ops[:i], uniform)
+            return run_history(tools, ops[:i], uniform, reuse)
         steps.append((o, skel(d.lb)))
         viols.append(d.viol[n0:])
     return list(ops), steps, dump(d.lb), viols
@@ -443,7 +485,7 @@ def alphabet(kind):
 SMALL = [0, 1, 3, 5, 6, 7, 9, 10, 11, 12, 14]    # reduced alphabet (indices) for the deepest thorough scope
 
 
-def trie_cases(run, tools, kind, depth, subset=None, prefix_len=2):
+def trie_cases(run, tools, kind, depth, subset=None, prefix_len=2, reuse=None):
     """All histories of exactly `depth` operations over the alphabet (their prefixes are all shorter
     histories), grouped by their first prefix_len operations into one CTrie case each."""
     alpha, shape = alphabet(kind)
@@ -466,7 +508,7 @@ def trie_cases(run, tools, kind, depth, subset=None, prefix_len=2):
                     o = ("record", shift(o[1], nrec))
                     nrec += 1
                 ops.append(o)
-            _, steps, _, viols = run_history(tools, ops)
+            _, steps, _, viols = run_history(tools, ops, True, reuse)
             first_new = 0
             if prev is not None:
                 while first_new < depth and prev[first_new] == path[first_new]:
@@ -549,6 +591,8 @@ def rand_bound(rng, n):
 def rand_history(rng, uniform):
     shape = rand_shape(rng)
     length = rng.randint(0, 12)
+    reuse_hist = rng.random() < 0.45      # the caller passes the same dictionary objects to successive record() calls
+    sim = Shared()
     ops, n, nrec = [], 0, 0         # n: number of records currently in the logbook (of the reference)
     ref = []
     if rng.random() < 0.25:
@@ -558,7 +602,11 @@ def rand_history(rng, uniform):
     while len(ops) < length:
         r = rng.random()
         if r < 0.38 or (n == 0 and r < 0.6):
-            ops.append(("record", rand_infos(rng, nrec, shape, uniform)))
+            infos = rand_infos(rng, nrec, shape, uniform)
+            mode = rng.choice(["keep", "keep", "clear", None]) if reuse_hist else None
+            if mode is not None:
+                infos = copy.deepcopy(sim.kwargs(infos, mode))      # what the unmodified shared objects hold
+            ops.append(("record", infos, mode))
             ref.append(nrec)
             nrec += 1
         elif r < 0.46:
@@ -800,35 +848,58 @@ def statslog_cases(run, tools, n, terms, cases):
             ms.register(nm, pf, *args, **kwargs)
             regs[nm] = (pf, args, kwargs)
             sops.append("(SRegister %s %s %s %s)" % (code(nm), cf, czl(args), clist(["(%s, %s)" % (code(k), cz(v)) for k, v in kwargs.items()])))
-        pops = [rand_data(rng, 1) for _ in range(rng.randint(0, 5))]
+        # generations: (extra scalar fields, population); "reuse" = the dictionary returned by the previous compile is
+        # passed to record() again (same objects), with other scalar fields
+        gens = []
+        for _ in range(rng.randint(0, 5)):
+            extra = {k: rng.randint(0, 9) for k in ("x", "y") if rng.random() < 0.5}
+            reuse = bool(gens) and rng.random() < 0.4
+            gens.append((extra, gens[-1][1] if reuse else rand_data(rng, 1), reuse))
+        pops = [g[1] for g in gens]
         lb = tools.Logbook()
         bad = []
         try:
-            for g, pop in enumerate(pops):
-                lb.record(id=g, **ms.compile(copy.deepcopy(pop)))
+            rec = None
+            for g, (extra, pop, reuse) in enumerate(gens):
+                if not reuse:
+                    rec = ms.compile(copy.deepcopy(pop))
+                snapshot = copy.deepcopy(rec)
+                lb.record(id=g, **extra, **rec)
+                if rec != snapshot:
+                    bad.append("record() modified the dictionary returned by MultiStatistics.compile: %r became %r" % (snapshot, rec))
         except Exception as e:  # noqa
             bad.append("record(**compile(...)) raised %s" % type(e).__name__)
-        case = {"kind": "statistics->logbook", "names": names, "keys": repr(keyspecs), "registered": sorted(regs), "populations": pops}
+        case = {"kind": "statistics->logbook", "names": names, "keys": repr(keyspecs), "registered": sorted(regs),
+                "generations": [{"extra": e, "population": p, "compile_result_reused": r} for e, p, r in gens]}
         run.note_case(("statslog", it, repr(case)), nontrivial=bool(pops) and bool(names), sample=case if it < 1 else None)
         if not bad:
-            if [dict(e) for e in list.__iter__(lb)] != [{"id": g} for g in range(len(pops))]:
-                bad.append("logbook holds %r" % (list(lb),))
+            tops = [dict(id=g, **e) for g, (e, _, _) in enumerate(gens)]
+            if [dict(e) for e in list.__iter__(lb)] != tops:
+                bad.append("logbook holds %r, expected %r" % (list(lb), tops))
             if pops and sorted(lb.chapters) != sorted(names):
                 bad.append("chapters %r, expected %r" % (sorted(lb.chapters), sorted(names)))
             for nm, k in zip(names, keyspecs):
                 want = []
-                for g, pop in enumerate(pops):
+                for g, (extra, pop, _) in enumerate(gens):
                     values = tuple(key_fn(k)(e) for e in pop)
                     ent = {f: pf(*(list(a) + [values]), **kw) for f, (pf, a, kw) in regs.items()}
+                    ent.update(extra)
                     ent["id"] = g
                     want.append(ent)
                 if pops and [dict(e) for e in list.__iter__(lb.chapters[nm])] != want:
                     bad.append("chapter %s holds %r, expected one compiled record per generation: %r" % (nm, list(lb.chapters[nm]), want))
+                if pops:
+                    for f in ("x", "y"):
+                        col = [w.get(f) for w in want]
+                        if lb.chapters[nm].select(f) != col:
+                            bad.append("chapters[%r].select(%r) returned %r, expected %r (None where the record lacks the name)" % (nm, f, lb.chapters[nm].select(f), col))
         for b in bad:
             run.oracle_violation(b, case, observed=repr(dump(lb)))
         try:
             term = "CStatsLog %s %s %s %s %s" % (code("id"), clist(["(%s, %s)" % (code(nm), ckey(k)) for nm, k in zip(names, keyspecs)]),
-                                                clist(sops), clist([clist([czl(x) for x in pop]) for pop in pops]), cdump(dump(lb)))
+                                                clist(sops),
+                                                clist(["(%s, %s)" % (clist(["(%s, %s)" % (code(k), cz(v)) for k, v in e.items()]), clist([czl(x) for x in p]))
+                                                       for e, p, _ in gens]), cdump(dump(lb)))
         except Unprintable:
             term = BAD_CASE
         terms.append(term)
@@ -837,6 +908,20 @@ def statslog_cases(run, tools, n, terms, cases):
 
 # ----------------------------------------------------------------------------
 WITNESS = [("record", {"id": 0}), ("stream",), ("delitem", 0), ("record", {"id": 1}), ("stream",)]
+
+
+def load_corpus():
+    """corpus/C18_*.json: {"name", "shape": {chapter: [sub-chapters]}, "ops": [[kind, args...], ...]} (uniform histories);
+    a record operation is ["record", {..}, mode] with mode null / "keep" / "clear" (see class Shared)."""
+    import glob
+    import json
+    import os
+    out = []
+    here = os.path.dirname(os.path.dirname(os.path.abspath(__file__)))
+    for f in sorted(glob.glob(os.path.join(here, "corpus", "C18_*.json"))):
+        for h in json.load(open(f)):
+            out.append((h["name"], h["shape"], [tuple(o) for o in h["ops"]]))
+    return out
 
 
 def _r(i, **kw):
@@ -919,7 +1004,9 @@ def main(run):
         terms += t
         cases += c
     for kind in ("flat", "sub", "three"):
-        t, c = trie_cases(run, tools, kind, run.scale(3, 4), prefix_len=run.scale(1, 2))
+        # sub / three: the caller keeps one dictionary object per chapter (and sub-chapter), cleared and refilled
+        t, c = trie_cases(run, tools, kind, run.scale(3, 4), prefix_len=run.scale(1, 2),
+                          reuse=None if kind == "flat" else "clear")
         terms += t
         cases += c
     phases["exhaustive_python"] = round(time.time() - t0 - phases["build"], 1)
@@ -931,7 +1018,7 @@ def main(run):
     # ---- random histories ----
     terms, cases = [], []
     hist_case(run, tools, WITNESS, True, "witness", terms, cases, shape={})
-    for name, shape, ops in CORPUS:
+    for name, shape, ops in CORPUS + load_corpus():
         hist_case(run, tools, ops, True, "corpus: " + name, terms, cases, shape=shape)
     for it in range(run.scale(600, 12000)):
         uniform = rng.random() < 0.85
